@@ -1676,6 +1676,17 @@ impl<'a> Gen<'a> {
         let edge = self.rng.range(9, 11); // delivery this many blocks after the first parking
         let d1 = self.rng.range(1, 8);    // second parking this many blocks after the first
         let start = self.next_height();
+        if self.rng.chance(1, 4) {
+            // the whole nonce window waiting: k+9 down to k+1 (in two blocks), then k: one call drains ten
+            self.block_with(&[(s, k + 9), (s, k + 8), (s, k + 7), (s, k + 6), (s, k + 5)], false);
+            self.block_with(&[(s, k + 4), (s, k + 3), (s, k + 2), (s, k + 1)], false);
+            let now = self.next_height();
+            let target = start + self.rng.range(2, 9);
+            if target > now { self.mine(target - now); }
+            self.block_with(&[(s, k)], true);
+            self.busy_until[s] = 0;
+            return;
+        }
         if self.rng.chance(1, 2) {
             // an expired entry BETWEEN live ones: k+2 first, k+1 and k+3 later, k around the expiry edge
             // of k+2 (the drain must stop at k+2 although k+1 ran and k+3 is still fresh)
